@@ -1,2 +1,356 @@
-def make_probe_agents(ctx):
-    return {}
+"""C20: probe subclasses of the built-in agents (call super().submit_orders, record inputs, draws and
+outputs) and the reference strategies they are compared with.
+"""
+import math
+import random
+from typing import Any, Dict, List, Optional
+
+from . import env  # noqa: F401
+from .monitor import Plugin, close, REL
+
+from pams.agents.arbitrage_agent import ArbitrageAgent  # noqa: E402
+from pams.agents.fcn_agent import FCNAgent  # noqa: E402
+from pams.agents.market_maker_agent import MarketMakerAgent  # noqa: E402
+from pams.agents.market_share_fcn_agent import MarketShareFCNAgent  # noqa: E402
+from pams.agents.test_agent import TestAgent  # noqa: E402
+from pams.index_market import IndexMarket  # noqa: E402
+from pams.order import LIMIT_ORDER, MARKET_ORDER, Cancel, Order  # noqa: E402
+
+
+class RecordingRandom(random.Random):
+    """random.Random with identical state that records top-level draws."""
+
+    def __init__(self):
+        super().__init__(0)
+        self.log: List = []
+        self._depth = 0
+
+    def _rec(self, name, fn, *a, **k):
+        self._depth += 1
+        try:
+            v = fn(*a, **k)
+        finally:
+            self._depth -= 1
+        if self._depth == 0:
+            self.log.append((name, v))
+        return v
+
+    def gauss(self, mu=0.0, sigma=1.0):
+        return self._rec("gauss", super().gauss, mu, sigma)
+
+    def random(self):
+        if self._depth > 0:
+            return super().random()
+        return self._rec("random", super().random)
+
+    def randint(self, a, b):
+        return self._rec("randint", super().randint, a, b)
+
+    def choices(self, population, weights=None, *, cum_weights=None, k=1):
+        self._depth += 1
+        try:
+            v = super().choices(population, weights=weights, cum_weights=cum_weights, k=k)
+        finally:
+            self._depth -= 1
+        if self._depth == 0:
+            self.log.append(("choices", [getattr(x, "market_id", x) for x in v]))
+        return v
+
+
+def market_state(agent, markets) -> Dict[int, Dict[str, Any]]:
+    st = {}
+    for m in markets:
+        if not agent.is_market_accessible(m.market_id):
+            continue
+        t = m.get_time()
+        st[m.market_id] = {
+            "t": t, "price": m.get_market_price(), "fund": m.get_fundamental_price(),
+            "bid": m.get_best_buy_price(), "ask": m.get_best_sell_price(), "running": m.is_running,
+            "tick": m.tick_size, "is_index": isinstance(m, IndexMarket),
+        }
+    return st
+
+
+def make_probe_agents(ctx) -> Dict[str, type]:
+    mon = ctx.mon
+
+    class ProbeMixin:
+        _vsim_probe = True
+        _kind = "?"
+
+        def __init__(self, agent_id, prng, simulator, name, logger=None):
+            rr = RecordingRandom()
+            rr.setstate(prng.getstate())
+            super().__init__(agent_id=agent_id, prng=rr, simulator=simulator, name=name, logger=logger)
+
+        def submit_orders(self, markets):
+            st = market_state(self, markets)
+            self.prng.log = []
+            mon.rec("Q", self.agent_id, markets[0].get_time() if markets else -1)
+            mon.stat("consults")
+            out = super().submit_orders(markets)
+            mon.agent_decision(self, self._kind, st, list(self.prng.log), out, markets)
+            return out
+
+        def submitted_order(self, log):
+            mon.on_callback(self, "submitted", log)
+            super().submitted_order(log)
+
+        def executed_order(self, log):
+            mon.on_callback(self, "executed", log)
+            super().executed_order(log)
+
+        def canceled_order(self, log):
+            mon.on_callback(self, "canceled", log)
+            super().canceled_order(log)
+
+    class ProbeFCN(ProbeMixin, FCNAgent):
+        _kind = "fcn"
+
+    class ProbeMSFCN(ProbeMixin, MarketShareFCNAgent):
+        _kind = "msfcn"
+
+    class ProbeMM(ProbeMixin, MarketMakerAgent):
+        _kind = "mm"
+
+    class ProbeArb(ProbeMixin, ArbitrageAgent):
+        _kind = "arb"
+
+    class ProbeTest(ProbeMixin, TestAgent):
+        _kind = "test"
+
+    return {c.__name__: c for c in (ProbeFCN, ProbeMSFCN, ProbeMM, ProbeArb, ProbeTest)}
+
+
+class AgentsPlugin(Plugin):
+    """reference strategies (DESIGN.md C20)."""
+
+    def attach(self, mon):
+        self.n = 0
+
+    # every order an agent returns is well-formed
+    def well_formed(self, mon, agent, out, ttl=None):
+        ok = True
+        for o in out:
+            if not isinstance(o, Order):
+                if isinstance(o, Cancel):
+                    continue
+                mon.viol("C20", "returned_non_order", {"agent": agent.name, "obj": repr(o)})
+                ok = False
+                continue
+            bad = None
+            if o.agent_id != agent.agent_id:
+                bad = "foreign agent id"
+            elif not agent.is_market_accessible(o.market_id):
+                bad = "market not accessible"
+            elif o.order_id is not None or o.placed_at is not None:
+                bad = "id/placed_at pre-set"
+            elif not isinstance(o.volume, int) or o.volume <= 0:
+                bad = "volume"
+            elif o.kind == LIMIT_ORDER and (o.price is None or not math.isfinite(o.price)):
+                bad = "limit price"
+            elif o.kind == MARKET_ORDER and o.price is not None:
+                bad = "market order with price"
+            elif o.ttl is not None and (not isinstance(o.ttl, int) or o.ttl <= 0):
+                bad = "ttl"
+            elif ttl is not None and o.ttl != ttl:
+                bad = f"ttl {o.ttl} != configured {ttl}"
+            elif o.is_canceled:
+                bad = "cancelled flag"
+            if bad:
+                mon.viol("C20", "malformed_order", {"agent": agent.name, "why": bad, "order": repr(o)})
+                ok = False
+        return ok
+
+    def fcn_expected(self, a, st, noise, market):
+        t = st["t"]
+        tw = min(t, a.time_window_size)
+        price = st["price"]
+        f_lr = (1.0 / max(a.mean_reversion_time, 1)) * math.log(st["fund"] / price)
+        past = market.get_market_price(t - tw)
+        c_lr = (1.0 / max(tw, 1)) * math.log(price / past)
+        n_lr = a.noise_scale * noise
+        W = a.fundamental_weight + a.chart_weight + a.noise_weight
+        lr = (a.fundamental_weight * f_lr + a.chart_weight * c_lr * (1 if a.is_chart_following else -1) + a.noise_weight * n_lr) / W
+        return price * math.exp(lr * a.time_window_size), c_lr, f_lr
+
+    def check_fcn_market(self, mon, a, st, noise, market, orders, margin_noise=None):
+        price = st["price"]
+        exp_p, c_lr, f_lr = self.fcn_expected(a, st, noise, market)
+        eps = 1e-9 * price
+        fixed = (a.margin_type == 0)
+        if c_lr != 0.0 and a.chart_weight > 0:
+            mon.probe("fcn_chart_term_nonzero")
+        if f_lr != 0.0 and a.fundamental_weight > 0:
+            mon.probe("fcn_fund_term_nonzero")
+        buys = [o for o in orders if o.is_buy]
+        sells = [o for o in orders if not o.is_buy]
+        if exp_p > price + eps:
+            want_side = "b"
+        elif exp_p < price - eps:
+            want_side = "s"
+        else:
+            want_side = None
+            mon.probe("fcn_dead_band")
+        if want_side == "b":
+            mon.probe("fcn_buy")
+            if len(buys) != 1 or sells:
+                mon.viol("C20", "fcn_side", {"agent": a.name, "expected_price": exp_p, "market_price": price,
+                                             "orders": [repr(o) for o in orders]})
+                return
+            o = buys[0]
+            want = exp_p * (1 - a.order_margin) if fixed else (exp_p + margin_noise * a.order_margin)
+        elif want_side == "s":
+            mon.probe("fcn_sell")
+            if len(sells) != 1 or buys:
+                mon.viol("C20", "fcn_side", {"agent": a.name, "expected_price": exp_p, "market_price": price,
+                                             "orders": [repr(o) for o in orders]})
+                return
+            o = sells[0]
+            want = exp_p * (1 + a.order_margin) if fixed else (exp_p + margin_noise * a.order_margin)
+        else:
+            if len(orders) > 1:
+                mon.viol("C20", "fcn_side", {"agent": a.name, "expected_price": exp_p, "market_price": price, "n": len(orders)})
+            return
+        if o.kind != LIMIT_ORDER or o.volume != 1 or o.ttl != a.time_window_size or o.market_id != market.market_id:
+            mon.viol("C20", "fcn_order_shape", {"agent": a.name, "order": repr(o), "ttl_want": a.time_window_size})
+        if not close(o.price, want, 1e-9):
+            mon.viol("C20", "fcn_price", {"agent": a.name, "got": o.price, "want": want, "expected_future_price": exp_p,
+                                          "margin": a.order_margin, "fixed": fixed, "market_price": price})
+        if a.order_margin in (0.0, 0.9, 1.0):
+            mon.probe("fcn_margin_extreme")
+        if a.time_window_size == 1:
+            mon.probe("fcn_window_1")
+
+    def decide(self, mon, agent, kind, st, draws, out, markets):
+        self.n += 1
+        mon.stat("agent_decisions")
+        id2m = {m.market_id: m for m in markets}
+        if kind == "fcn":
+            self.well_formed(mon, agent, out, ttl=agent.time_window_size)
+            acc = [m for m in markets if agent.is_market_accessible(m.market_id)]
+            per = 1 if agent.margin_type == 0 else 2
+            g = [d for d in draws if d[0] == "gauss"]
+            if len(g) != per * len(acc):
+                mon.viol("C20", "fcn_draws", {"agent": agent.name, "gauss_draws": len(g), "markets": len(acc)})
+                return
+            for i, m in enumerate(acc):
+                orders = [o for o in out if isinstance(o, Order) and o.market_id == m.market_id]
+                noise = g[per * i][1]
+                mn = g[per * i + 1][1] if per == 2 else None
+                self.check_fcn_market(mon, agent, st[m.market_id], noise, m, orders, mn)
+            extra = [o for o in out if isinstance(o, Order) and o.market_id not in {m.market_id for m in acc}]
+            if extra:
+                mon.viol("C20", "order_for_inaccessible_market", {"agent": agent.name})
+        elif kind == "msfcn":
+            self.well_formed(mon, agent, out, ttl=agent.time_window_size)
+            ch = [d for d in draws if d[0] == "choices"]
+            g = [d for d in draws if d[0] == "gauss"]
+            mids = {o.market_id for o in out if isinstance(o, Order)}
+            if len(mids) > 1:
+                mon.viol("C20", "msfcn_several_markets", {"agent": agent.name, "markets": sorted(mids)})
+                return
+            if len(ch) != 1:
+                mon.viol("C20", "msfcn_draws", {"agent": agent.name, "choices": len(ch)})
+                return
+            chosen = ch[0][1][0]
+            if mids and chosen not in mids:
+                mon.viol("C20", "msfcn_orders_not_for_chosen_market", {"agent": agent.name, "chosen": chosen, "orders_for": sorted(mids)})
+            # the chosen market has positive recent volume whenever some accessible market has
+            vols = {}
+            for mid in st:
+                m = id2m[mid]
+                t = m.get_time()
+                vols[mid] = sum(m.get_executed_volumes(range(max(0, t - agent.time_window_size), t + 1)))
+            if any(v > 0 for v in vols.values()):
+                mon.probe("msfcn_some_market_has_volume")
+                if vols.get(chosen, 0) == 0:
+                    mon.viol("C20", "msfcn_chose_market_without_volume", {"agent": agent.name, "chosen": chosen, "volumes": vols})
+            per = 1 if agent.margin_type == 0 else 2
+            if len(g) == per and chosen in st:
+                orders = [o for o in out if isinstance(o, Order)]
+                self.check_fcn_market(mon, agent, st[chosen], g[0][1], id2m[chosen], orders, g[1][1] if per == 2 else None)
+        elif kind == "mm":
+            self.well_formed(mon, agent, out, ttl=agent.order_time_length)
+            tm = agent.target_market
+            orders = [o for o in out if isinstance(o, Order)]
+            buys = [o for o in orders if o.is_buy]
+            sells = [o for o in orders if not o.is_buy]
+            if len(buys) != 1 or len(sells) != 1 or any(o.market_id != tm.market_id for o in orders):
+                mon.viol("C20", "mm_not_one_buy_one_sell", {"agent": agent.name, "orders": [repr(o) for o in orders]})
+                return
+            bids = [s["bid"] for s in st.values() if s["bid"] is not None]
+            asks = [s["ask"] for s in st.values() if s["ask"] is not None]
+            if bids and asks:
+                base = (max(bids) + min(asks)) / 2.0
+                mon.probe("mm_base_from_quotes")
+            else:
+                base = tm.get_market_price() if tm.market_id not in st else st[tm.market_id]["price"]
+                mon.probe("mm_base_from_market_price")
+            fund = tm.get_fundamental_price()
+            spread = fund * agent.net_interest_spread
+            b, s = buys[0], sells[0]
+            scale = max(abs(base), abs(spread), 1.0)
+            if not close(s.price - b.price, spread, 1e-9, scale):
+                mon.viol("C20", "mm_spread", {"agent": agent.name, "sell": s.price, "buy": b.price, "want_spread": spread})
+            if not close((s.price + b.price) / 2.0, base, 1e-9, scale):
+                mon.viol("C20", "mm_not_symmetric_around_base", {"agent": agent.name, "sell": s.price, "buy": b.price, "base": base})
+            if b.volume != 1 or s.volume != 1 or b.kind != LIMIT_ORDER or s.kind != LIMIT_ORDER:
+                mon.viol("C20", "mm_order_shape", {"agent": agent.name})
+        elif kind == "arb":
+            self.well_formed(mon, agent, out, ttl=agent.order_time_length)
+            orders = [o for o in out if isinstance(o, Order)]
+            want_total = []
+            for m in markets:
+                if not isinstance(m, IndexMarket) or not agent.is_market_accessible(m.market_id):
+                    continue
+                comps = m.get_components()
+                mine = [o for o in orders if o.market_id == m.market_id]
+                if not m.is_running or not all(c.is_running for c in comps):
+                    mon.probe("arb_not_running")
+                    if mine:
+                        mon.viol("C20", "arb_acted_while_not_running", {"agent": agent.name})
+                    continue
+                idx = m.get_index()
+                px = m.get_market_price()
+                gap = px - idx
+                thr = agent.order_threshold_price
+                eps = 1e-9 * max(abs(px), abs(idx), 1.0)
+                n = len(comps)
+                v = agent.order_volume
+                comp_orders = [o for o in orders if o.market_id in {c.market_id for c in comps}]
+                if abs(gap) > thr + eps:
+                    cheap_index = gap < 0  # index market price below computed index: buy the index, sell components
+                    mon.probe("arb_basket_buy_index" if cheap_index else "arb_basket_sell_index")
+                    if len(mine) != 1:
+                        mon.viol("C20", "arb_basket", {"agent": agent.name, "index_orders": len(mine), "gap": gap, "threshold": thr})
+                        continue
+                    io = mine[0]
+                    ok = (io.is_buy == cheap_index and io.volume == n * v and io.kind == LIMIT_ORDER and close(io.price, px, 1e-12))
+                    ok = ok and len(comp_orders) == n and {o.market_id for o in comp_orders} == {c.market_id for c in comps}
+                    for o in comp_orders:
+                        c = id2m[o.market_id]
+                        ok = ok and (o.is_buy != cheap_index) and o.volume == v and o.kind == LIMIT_ORDER and close(o.price, c.get_market_price(), 1e-12)
+                    if not ok:
+                        mon.viol("C20", "arb_basket", {"agent": agent.name, "gap": gap, "threshold": thr, "n": n, "v": v,
+                                                       "orders": [repr(o) for o in orders]})
+                elif abs(gap) < thr - eps:
+                    mon.probe("arb_below_threshold")
+                    if mine or comp_orders:
+                        mon.viol("C20", "arb_acted_below_threshold", {"agent": agent.name, "gap": gap, "threshold": thr})
+                else:
+                    mon.probe("arb_on_threshold")
+        elif kind == "test":
+            self.well_formed(mon, agent, out)
+            mon.probe("test_agent_decision")
+
+
+def _agent_decision(self, agent, kind, st, draws, out, markets):
+    for p in self.plugins:
+        if isinstance(p, AgentsPlugin):
+            p.decide(self, agent, kind, st, draws, out, markets)
+
+
+from .monitor import Monitor  # noqa: E402
+
+Monitor.agent_decision = _agent_decision
